@@ -116,6 +116,15 @@ func genAOF(r *Rng, tier string, idx int, rewrite bool) *Plan {
 	}
 	if rewrite && r.Chance(0.5) {
 		p.Profile = "conc"
+		// in a third of the concurrent plans the process is killed in the middle of a concurrent phase
+		// (after the N-th scheduling step of the phase)
+		if r.Chance(0.33) {
+			for j := range p.Ops {
+				if p.Ops[j].Kind == "rewrite" && r.Bool() {
+					p.Ops[j].N = int64(r.Range(1, 40))
+				}
+			}
+		}
 	}
 	p.Dice = drawDice(r, 96)
 	return p
